@@ -135,7 +135,10 @@ PowCases ==
 TN(n) == n + 2
 InTri(up, i, j) == IF up THEN i <= j ELSE i >= j
 \* diagonal blocks of size n of the (n+2) x (n+2) triangular parent: SliceTri(p, p + n)
-TWin(n, p) == CHOOSE w \in DiagWin(TN(n)) : w.i = p /\ w.r = n
+DiagBlock(N, p, n) == [off |-> p * N + p, r |-> n, c |-> n, st |-> N, i |-> p, k |-> p + n, j |-> p, l |-> p + n, R |-> N, C |-> N]
+TWin(n, p) == DiagBlock(TN(n), p, n)
+\* (written out for speed; it is the window of MatAlias's geometry)
+ASSUME \A n \in 1 .. MaxN, p \in 0 .. 2 : TWin(n, p) \in DiagWin(TN(n))
 \* backing array of a triangular parent of kind up: its triangle holds data, the other triangle junk
 TBackOf(N, up, salt) ==
     [s \in 1 .. N * N |-> LET z == s - 1  ri == z \div N  cj == z % N IN
@@ -178,7 +181,8 @@ FStore(n, up, f, pos) ==
       [] f.kind = "band" -> BandStore(n, up, Seed + 23 + pos)
       [] OTHER -> <<>>
 \* window SliceTri(1, n + 1) of the second parent
-W2nd(n) == CHOOSE w \in DiagWin(n + 1) : w.i = 1 /\ w.r = n
+W2nd(n) == DiagBlock(n + 1, 1, n)
+ASSUME \A n \in 1 .. MaxN : W2nd(n) \in DiagWin(n + 1)
 FAbs(n, up, f, pos, back, w1) ==
     CASE f.kind \in {"win", "self"} -> TriAbs(back, FWin(n, f, w1), up)
       [] f.kind \in {"diagwin", "selfdiag"} -> DiagAbs(back, FWin(n, f, w1))
